@@ -33,7 +33,66 @@ def h_opl_order(I, job):
         got.append((w, I.concretize(I.load(out + p + 8, i64), 'id'))); p += 16
     want = [(t, i) for (_, t, i) in lines if m & BIT[t]]
     I.observe('entities', tuple(got))
-    if got != want: raise Finding('order', 'entity mask %#x: delivered (type, id) sequence %s differs from the selected objects in file order %s' % (m, got, want))
+    if got != want: raise Finding('order', 'the delivered (type, id) sequence differs from the selected objects in file order')
+    I.reach('end')
+
+
+POPB = '@_ZN6osmium2io6detail13queue_wrapperINS_6memory6BufferEE3popEv'
+RCLOSE = '@_ZN6osmium2io6Reader5closeEv'
+
+
+def setup_reader(I):
+    if POPB not in I.m.funcs: raise Exception('queue_wrapper<Buffer>::pop not found in the IR (inlined?)')
+    I.overrides[POPB] = lambda I_, ret, this: I_.call('@verif_model_pop_buffer', [ret, this])
+    if RCLOSE in I.m.funcs: I.overrides[RCLOSE] = lambda I_, this: None
+
+
+def h_reader_read(I, job):
+    """Reader::read() on a script of 1-3 buffers with symbolic object counts (0 = valid empty buffer), built with a small internally growing buffer"""
+    nb = job['nbuf']
+    cm = I.new_obj(4 * nb, 'counts', 'heap'); counts = []
+    for k in range(nb):
+        c = I.named('count%d' % k, 8); I.assume(z3.ULE(I.term(c, 8), job['maxcount'])); c = I.concretize(c, 'count')
+        I.store(cm + 4 * k, i32, c); counts.append(c)
+    cap = I.named('cap', 32); I.assume(z3.And(z3.UGE(I.term(cap, 32), 64), z3.ULE(I.term(cap, 32), job['maxcap']), z3.URem(I.term(cap, 32), 8) == 0))
+    ul = I.named('ulen', 6); I.assume(z3.Or([I.term(ul, 6) == v for v in (0, 5, 6, 14, 22, 23, 40)])); ul = I.concretize(ul, 'ulen')      # user lengths around the padding steps; 22+ makes the first object larger than a 64-byte buffer
+    out = I.new_obj(8 * 40, 'out', 'heap')
+    n = I.concretize(I.call('@verif_reader_read', [nb, cm, cap, ul, 1, out, 40]), 'n')
+    got = [I.concretize(I.load(out + 8 * k, i64), 'id') for k in range(min(n, 40))]
+    got = [g - (1 << 64) if g >> 63 else g for g in got]
+    I.observe('delivered', tuple(got))
+    want = list(range(1, sum(counts) + 1)) + [-1, -2]
+    if got != want: raise Finding('order', 'Reader::read() does not deliver every object once in build order, then the end-of-data buffer, then an error for a further read')
+    I.reach('end')
+
+
+def h_pbf_mask(I, job):
+    """one PrimitiveBlock with several groups of different types (legal in the format), read with every entity mask"""
+    from pbfenc import f_bytes, pbf_dense, pbf_way, pbf_relation
+    groups = {'n': (f_bytes(2, pbf_dense([1, 2])), [(1, 1), (1, 2)]), 'w': (f_bytes(3, pbf_way(10, [1, 2])) + f_bytes(3, pbf_way(11, [2])), [(2, 10), (2, 11)]),
+              'r': (f_bytes(4, pbf_relation(20, [(0, 1), (1, 10)])), [(3, 20)])}
+    msg = f_bytes(1, f_bytes(1, b'')); want_all = []
+    for g in job['groups']:
+        msg += f_bytes(2, groups[g][0]); want_all += groups[g][1]
+    buf = I.new_obj(len(msg), 'msg', 'heap')
+    for k, b in enumerate(msg): I.store(buf + k, i8, b)
+    mask = I.named('mask', 3); m = I.concretize(mask, 'mask')
+    out = I.new_obj(1024, 'out', 'heap'); ol = I.new_obj(4, 'ol', 'heap')
+    rc = I.concretize(I.call('@verif_primitive_block_mask', [buf, len(msg), m, 1, out, 1024, ol]), 'rc'); I.observe('rc', rc)
+    if rc != 0: raise Finding('error', 'valid PrimitiveBlock rejected (rc=%d)' % rc)
+    n = I.concretize(I.load(ol, i32), 'n'); got = []; p = 0
+    while p + 16 <= n:
+        t = I.concretize(I.load(out + p, i64), 'type'); idv = I.concretize(I.load(out + p + 8, i64), 'id'); got.append((t, idv))
+        ulen = I.concretize(I.load(out + p + 56, i64), 'ulen'); p += 64 + ulen
+        if t == 1: p += 16 + 8
+        elif t == 2: cnt = I.concretize(I.load(out + p, i64), 'nrefs'); p += 8 + 24 * cnt + 8
+        elif t == 3:
+            cnt = I.concretize(I.load(out + p, i64), 'nmem'); p += 8
+            for _ in range(cnt): rl = I.concretize(I.load(out + p + 16, i64), 'rlen'); p += 24 + rl
+            p += 8
+    want = [(t, i) for (t, i) in want_all if m & {1: 1, 2: 2, 3: 4}[t]]
+    I.observe('entities', tuple(got))
+    if got != want: raise Finding('order', 'the delivered (type, id) sequence differs from the selected objects in file order')
     I.reach('end')
 
 
@@ -47,4 +106,10 @@ def harnesses(tier):
                 bounds='one concrete OPL file of %d objects; all 16 entity masks; single cuts%s' % (nl, '' if q else ' and pairs of cuts'),
                 testgen=lambda rnd: [dict(mask=rnd.choice([0x17, 0x01, 0x12, 0x04, 0x00]), **{'cut%d' % k: 0 for k in range(1, 200)})][:0]),
     ]
+    hs.append(Harness('pbf_block_mask', 'decode', h_pbf_mask, jobs=[dict(groups=g) for g in ('nwr', 'wn', 'rw', 'n', 'wr')],
+                      desc='PBFPrimitiveBlockDecoder on blocks with one to three PrimitiveGroups of different types (dense nodes, ways, relations, in several orders) for every entity mask: exactly the selected objects, once each, in file order',
+                      bounds='blocks of <= 5 objects; all 8 node/way/relation masks'))
+    hs.append(Harness('reader_read', 'reader', h_reader_read, setup=setup_reader, native_ok=False, jobs=[dict(nbuf=n, maxcount=3, maxcap=96 if q else 160) for n in (1, 2, 3)], wall=900,
+                      desc='Reader::read() itself (back-buffer handling of nested buffers, skipping of valid empty buffers, end-of-data marker, status) on a partially constructed Reader whose output queue is a script of 1-3 buffers with 0-3 nodes each, built by the real builders in internally growing buffers of symbolic capacity: every object once, in order, then the end-of-data buffer, then io_error',
+                      bounds='<= 3 buffers x <= 3 objects, buffer capacity 64..%d, user lengths {0,5,6,14,22,23,40} (+0..2)' % (96 if q else 160)))
     return hs
